@@ -162,7 +162,13 @@ func init() {
 				s2 := newSpec("N0CALL", "LA1B", master)
 				s2.outbox = []*outMsg{newOutMsg(genMessage(c.Rng, "N0CALL", "LA1B", 200))}
 				// answers to our proposal: hostile offsets and forms
-				for _, ans := range []string{"FS A-5\r", "FS A999999\r", "FS !7\r", "FS A0A0\r", "FS +\rF>\r", "FS Y\r\x00\r", "FS 9\r", "FS\r", "FS ++\r"} {
+				answers := []string{"FS A-5\r", "FS A999999\r", "FS !7\r", "FS A0A0\r", "FS +\rF>\r", "FS Y\r\x00\r", "FS 9\r", "FS\r", "FS ++\r"}
+				// resume offsets around the two sizes of OUR proposal (compressed and uncompressed)
+				cs, us := len(fbbCompressed(s2.outbox[0])), len(s2.outbox[0].data)
+				for _, o := range []int{cs - 1, cs, cs + 1, (cs + us) / 2, us - 1, us, us + 1, 6, 5} {
+					answers = append(answers, fmt.Sprintf("FS A%d\r", o), fmt.Sprintf("FS !%d\rFF\r", o))
+				}
+				for _, ans := range answers {
 					add(s2, []byte(pre+n+ans), "named-shape-with-outbound", fmt.Sprintf("named shape %q then %q", trunc(n, 20), ans))
 				}
 			}
@@ -227,6 +233,12 @@ func init() {
 				{"body-size-huge", lz([]byte("Mid: AAAA\r\nBody: 99999999999\r\nDate: 2020/01/01 10:00\r\n\r\nhi")), ""},
 				{"file-size-negative", lz([]byte("Mid: AAAA\r\nBody: 2\r\nFile: -5 x.txt\r\nDate: 2020/01/01 10:00\r\n\r\nhi\r\n")), ""},
 				{"no-headers", lz([]byte("\r\n\r\n")), ""},
+				{"file-header-without-name", lz([]byte("Mid: AAAA\r\nBody: 2\r\nFile: 3\r\nDate: 2020/01/01 10:00\r\n\r\nhi\r\nabc\r\n")), ""},
+				{"file-header-empty", lz([]byte("Mid: AAAA\r\nBody: 2\r\nFile:\r\nDate: 2020/01/01 10:00\r\n\r\nhi\r\n")), ""},
+				{"file-header-non-numeric", lz([]byte("Mid: AAAA\r\nBody: 2\r\nFile: x y\r\nFile: 1\r\nFile: 1 a\r\nDate: 2020/01/01 10:00\r\n\r\nhi\r\nq\r\n")), ""},
+				{"file-name-encoded-word-garbage", lz([]byte("Mid: AAAA\r\nBody: 2\r\nFile: 1 =?utf-8?q?=ZZ?=\r\nDate: 2020/01/01 10:00\r\n\r\nhi\r\nq\r\n")), ""},
+				{"date-missing", lz([]byte("Mid: AAAA\r\nBody: 2\r\n\r\nhi\r\n")), ""},
+				{"headers-only-no-blank-line", lz([]byte("Mid: AAAA\r\nBody: 2")), ""},
 				{"proposal-csize-negative", validLz, "-1"},
 				{"proposal-csize-min-int", validLz, "-9223372036854775808"},
 				{"proposal-csize-huge", validLz, "268435456"},
